@@ -24,6 +24,18 @@
     edits' is covered because the invariant is re-established on the combined string.  Names, PI
     data and attribute value pieces enter the model as facts computed by the implementation's
     parser; the theorem assumes those facts are lexically sound ([op_facts_ok]).
+    [C15_printable_reachable_model_facts] (last section; Model/DomFacts.v, Proofs/DomFacts*.v)
+    discharges that hypothesis for facts computed by the MODEL of the parser ([facts_of_name],
+    [facts_of_data]: [Peg.run] on the regenerated grammar, read through Model/ParseActions.v, on the
+    markup the code builds around the argument): for every string the computed facts are lexically
+    sound ([C15_name_facts_ok_model], [C15_data_facts_ok_model], [C15_facts_ok15_model]), outside
+    the decidable exclusions [KnownFacts] (Properties/C13.v: finding D04 seen through
+    create_processing_instruction, create_entity_reference and references inside attribute values;
+    the unchecked rest of create_entity_reference).  Likewise [C15_lex15_reachable_model_facts],
+    [C15_edited_roundtrip_model_facts], [C15_edited_roundtrip_merged_model_facts]: the theorems
+    below without [op_facts_ok] / [op_facts_ok15].  What remains assumed is that the
+    implementation's parser computes what its model computes (the [prod] / [parse] / [dom]
+    correspondences, checked on every run).
 
     [edited_roundtrip] (second half of this file; Model/StoreDoc.v, Proofs/StoreDoc*.v).
     [doc_of_store s : Info.document] is the infoset document a store denotes: the children of the
@@ -107,8 +119,9 @@ From XmlRs Require Import Model.Store Model.StoreCheck Model.PrintableCheck Mode
   Proofs.DomOrder Proofs.DomOrderInv Model.StoreView
   Proofs.StoreDocInv Proofs.StoreDocShow Proofs.StoreDocWf Proofs.StoreDocReach
   Model.StoreDocMerged Proofs.StoreDocMerged Proofs.StoreDocMergedReach
-  Proofs.StoreDocPiFlag Proofs.StoreIso Proofs.StoreIsoSim Proofs.StoreIsoDoc Proofs.StoreIsoQuery.
-From XmlRs Require Model.CharData.
+  Proofs.StoreDocPiFlag Proofs.StoreIso Proofs.StoreIsoSim Proofs.StoreIsoDoc Proofs.StoreIsoQuery
+  Model.DomFacts Proofs.DomFactsAgree Proofs.DomFactsRefine Proofs.DomFactsLex15.
+From XmlRs Require Model.CharData Proofs.NameLanguage Proofs.DomFactsData.
 Import ListNotations.
 Open Scope N_scope.
 
@@ -364,3 +377,89 @@ Print Assumptions C15_norm_doc_same_print.
 Print Assumptions C15_edited_roundtrip_merged_partial.
 Print Assumptions C15_edited_roundtrip_merged_reachable.
 Print Assumptions C15_known15m_refuted.
+
+(** ** histories whose string facts are computed by the model of the parser (see the header and the
+    last section of Properties/C13.v: [model_facts], [KnownFacts], [with_model_facts]) *)
+Theorem C15_name_facts_ok_model : forall s,
+  NameLanguage.KnownD04 s = false -> KnownRefLoose s = false -> name_facts_ok (facts_of_name s).
+Proof. exact name_facts_ok_model. Qed.
+
+Theorem C15_data_facts_ok_model : forall s, DomFactsData.value_D04 s = false -> data_facts_ok (facts_of_data s).
+Proof. exact data_facts_ok_model. Qed.
+
+Theorem C15_facts_ok15_model : forall s, name_facts_ok15 (facts_of_name s) /\ data_facts_ok15 (facts_of_data s).
+Proof. intros s. split; [apply name_facts_ok15_model | apply data_facts_ok15_model]. Qed.
+
+(** per operation, with the fields the call does not read blanked ([relevant], which does not
+    change [step]) *)
+Theorem C15_model_facts_ok : forall o, model_facts o ->
+  (KnownFacts o = false -> op_facts_ok (relevant o)) /\ op_facts_ok15 (relevant o) /\ (forall w, step w (relevant o) = step w o).
+Proof.
+  intros o M. split; [intros K; apply model_facts_ok; assumption|]. split; [apply model_facts_ok15; exact M|].
+  intros w. apply step_relevant.
+Qed.
+
+Theorem C15_printable_reachable_model_facts : forall ops w,
+  WPrintable w -> Forall model_facts ops -> forallb (fun o => negb (KnownFacts o)) ops = true -> WPrintable (run w ops).
+Proof. exact printable_reachable_model_facts. Qed.
+
+Theorem C15_lex15_reachable_model_facts : forall ops w,
+  WLex15 w -> Forall model_facts ops -> forallb (fun o => negb (KnownFacts o)) ops = true -> WLex15 (run w ops).
+Proof. exact lex15_reachable_model_facts. Qed.
+
+Theorem C15_edited_roundtrip_model_facts : forall init ops k s,
+  WInv2 init -> WLex15 init -> Forall model_facts ops -> forallb (fun o => negb (KnownFacts o)) ops = true ->
+  doc_at (run init ops) k = Some s -> Known15 s = false ->
+  exists d', pipeline_parse (show_doc s) = OOk ([], d') /\ doc_eq d' (doc_of_store s).
+Proof.
+  intros init ops k s I2 L M K D Kn. destruct (edited_roundtrip_reachable_model_facts init ops k s I2 L M K D Kn) as [_ E].
+  exists (doc_of_store s). split; [exact E | reflexivity].
+Qed.
+
+Theorem C15_edited_roundtrip_merged_model_facts : forall init ops k s,
+  WInv2 init -> WLex15 init -> Forall model_facts ops -> forallb (fun o => negb (KnownFacts o)) ops = true ->
+  doc_at (run init ops) k = Some s -> Known15m s = false ->
+  pipeline_parse (show_doc s) = OOk ([], norm_doc (doc_of_store s)).
+Proof. exact edited_roundtrip_m_reachable_model_facts. Qed.
+
+(** the history of [C15_roundtrip_example] given by strings only: the comment "c", the PI
+    ("q", "z"), the element "n", set_attribute(n, "k", "v&#x41;&e;"), the CDATA section "<&" --
+    the facts are computed by the model of the parser, the final store is the same [rt_store] *)
+Definition rt_mf_ops : list op := map with_model_facts
+  [ CreateComment (0, 1) (sdata [99]);
+    InsertBefore (0, 1) (0, 21) (0, 20);
+    CreateProcessingInstruction (0, 1) (sname [113]) (sdata [122]);
+    AppendChild (0, 1) (0, 22);
+    CreateElement (0, 1) (sname [110]);
+    SetAttribute (0, 23) (sname [107]) (sdata [118; 38; 35; 120; 52; 49; 59; 38; 101; 59]);
+    AppendChild (0, 2) (0, 23);
+    SplitText (0, 10) 1;
+    CreateCDataSection (0, 1) (sdata [60; 38]);
+    InsertBefore (0, 7) (0, 29) (0, 28);
+    RemoveAttribute (0, 2) [97] ].
+
+Lemma rt_mf_final : doc_at (run (mkWorld [store_of_list rt_items 21 decl10 1]) rt_mf_ops) 0 = Some rt_store.
+Proof. vm_compute. reflexivity. Qed.
+
+Example C15_roundtrip_model_facts_example :
+  Forall model_facts rt_mf_ops /\ forallb (fun o => negb (KnownFacts o)) rt_mf_ops = true
+  /\ Known15 rt_store = false
+  /\ exists d', pipeline_parse (show_doc rt_store) = OOk ([], d') /\ doc_eq d' (doc_of_store rt_store).
+Proof.
+  assert (I : init_ok rt_items 21 decl10 = true) by (vm_compute; reflexivity).
+  destruct (init_ok_sound _ _ _ I) as [I2 IL].
+  assert (M : Forall model_facts rt_mf_ops) by apply map_model_facts.
+  assert (K : forallb (fun o => negb (KnownFacts o)) rt_mf_ops = true) by (vm_compute; reflexivity).
+  assert (Kn : Known15 rt_store = false) by (vm_compute; reflexivity).
+  split; [exact M|]. split; [exact K|]. split; [exact Kn|].
+  exact (C15_edited_roundtrip_model_facts _ rt_mf_ops 0 rt_store I2 IL M K rt_mf_final Kn).
+Qed.
+
+Print Assumptions C15_name_facts_ok_model.
+Print Assumptions C15_data_facts_ok_model.
+Print Assumptions C15_facts_ok15_model.
+Print Assumptions C15_model_facts_ok.
+Print Assumptions C15_printable_reachable_model_facts.
+Print Assumptions C15_lex15_reachable_model_facts.
+Print Assumptions C15_edited_roundtrip_model_facts.
+Print Assumptions C15_edited_roundtrip_merged_model_facts.
